@@ -1,11 +1,44 @@
-import CelmaVerif.Model.ProgArgs.Groups
-/- C03 — property theorems (under construction: see DESIGN.md) -/
+import CelmaVerif.Lemmas.Spelling
+import CelmaVerif.Lemmas.RulesComplete
+/-
+  C03 — every command line that obeys the declared rules is accepted.
+  `Obeys` judges the order-sensitive rules in the documented sense: an exclusion forbids *later* key
+  occurrences of the excluded argument, a requirement is met by a *later* key occurrence.
+  Partial for the same reasons as C01 (forms in `Spells`; LevelCounter arguments; the argument
+  destinations outside the modelled fragment).
+-/
 namespace CelmaVerif.Props.C03
-open CelmaVerif CelmaVerif.ProgArgs
+open CelmaVerif CelmaVerif.ProgArgs CelmaVerif.Keys
 
-/-- placeholder obligation replaced by the real theorems: the model's begin iterator on a one-word
-    argv is the end iterator -/
-theorem C03_begin_single (w : Word) : (It.begin [w]).isOk = true := by
-  simp [It.begin, It.mkEnd, getWord, Res.isOk]
+/-- **Completeness.**  For a well-formed configuration, whatever other arguments, checks and
+    constraints it defines: an abstract command line that obeys every declared rule (uses no
+    deprecated and no LevelCounter argument — stage), in any covered spelling, is evaluated without
+    error. -/
+theorem C03_complete_partial (cfg : Cfg) (wf : cfg.WellFormed) (inits : List DVal)
+    (hin : cfg.args.length ≤ inits.length) (us : List Use) (ws : List Word) (prog : Word)
+    (sp : Spells cfg none us ws) (ob : Obeys cfg inits us)
+    (notDeprecated : ∀ u ∈ us, ∀ d, cfg.args[u.arg]? = some d → d.deprecated = false)
+    (noLevel : ∀ u ∈ us, ∀ d, cfg.args[u.arg]? = some d → d.kind ≠ .level) :
+    ∃ hf, evalArguments cfg (cfg.initState inits) {} (prog :: ws) = .ok hf := by
+  obtain ⟨hf, he⟩ := rules_complete_partial wf hin ob notDeprecated noLevel
+  have hl : (cfg.initState inits).lastArg = none := rfl
+  exact ⟨hf, by rw [spells_eval cfg (cfg.initState inits) prog (by rw [hl]; exact sp)]; exact he⟩
+
+/-- **Acceptance depends on the abstract content only**: whether a command line is accepted (and with
+    which result or exception) is decided by `evalUses` on the uses it spells, not by the spelling. -/
+theorem C03_acceptance_by_content_partial (cfg : Cfg) (h : HState) (us : List Use) (ws : List Word) (prog : Word)
+    (sp : Spells cfg h.lastArg us ws) : evalArguments cfg h {} (prog :: ws) = evalUses cfg h us :=
+  spells_eval cfg h prog sp
+
+/-- boundaries of the value checks as the handler applies them: `lower` is inclusive, `upper` is
+    exclusive, `range` is half-open -/
+theorem C03_check_boundaries (v : Int) (s : Word) (hs : lexCastInt s = .ok v) :
+    (Check.lower v).run s = .ok () ∧ (Check.upper v).run s = .throw .overflow_error ∧
+    (Check.upper (v + 1)).run s = .ok () ∧ (Check.range v (v + 1)).run s = .ok () := by
+  have : v < v + 1 := by omega
+  simp [Check.run, hs, throwIf, this]
+
+/-! ### non-vacuity -/
+example : lexCastInt "5".toList = .ok 5 := by rfl
 
 end CelmaVerif.Props.C03
